@@ -407,6 +407,15 @@ func (s *sim) step() {
 	}
 }
 
+// violate reports an oracle failure and ends the run. (kernel.K.Violate returns
+// instead of stopping when the class is listed as a known finding marked
+// "continue"; after any C28 finding the model and the allocator no longer
+// agree, so this world never continues past one.)
+func (s *sim) violate(oracle, class, format string, a ...any) {
+	s.k.Violate(prop, oracle, class, format, a...)
+	s.k.Stop()
+}
+
 func (s *sim) pickLive(label string) *blk {
 	return s.m.live[s.k.Choose(len(s.m.live), label)]
 }
@@ -478,22 +487,22 @@ func (s *sim) alloc(size uint32) {
 	rs := roundUp(size)
 	k.Event("alloc-ok", "#%d Allocate(%d) -> %#x (block %d bytes, memory %d pages)", s.op, size, ptr, rs, s.mem.Pages())
 	if m.poisoned {
-		k.Violate(prop, "poisoned", "allocate-succeeded-after-poisoning", "Allocate(%d) returned %#x although an invalid free had been rejected before (allocator must be poisoned)", size, ptr)
+		s.violate("poisoned", "allocate-succeeded-after-poisoning", "Allocate(%d) returned %#x although an invalid free had been rejected before (allocator must be poisoned)", size, ptr)
 	}
 	if size > maxRequest {
-		k.Violate(prop, "max-size", "oversize-request-succeeded", "Allocate(%d) (> 32 MiB) returned %#x instead of an error", size, ptr)
+		s.violate("max-size", "oversize-request-succeeded", "Allocate(%d) (> 32 MiB) returned %#x instead of an error", size, ptr)
 	}
 	if ptr%8 != 0 {
-		k.Violate(prop, "alignment", "pointer-not-8-aligned", "Allocate(%d) returned %#x, not 8-byte aligned", size, ptr)
+		s.violate("alignment", "pointer-not-8-aligned", "Allocate(%d) returned %#x, not 8-byte aligned", size, ptr)
 	}
 	if ptr < m.heapBase {
-		k.Violate(prop, "bounds", "pointer-below-heap-base", "Allocate(%d) returned %#x, below heap base %#x", size, ptr, m.heapBase)
+		s.violate("bounds", "pointer-below-heap-base", "Allocate(%d) returned %#x, below heap base %#x", size, ptr, m.heapBase)
 	}
 	if uint64(ptr)+rs > s.mem.Size() {
-		k.Violate(prop, "bounds", "block-outside-linear-memory", "Allocate(%d) returned %#x: block of %d bytes ends at %#x beyond memory size %#x", size, ptr, rs, uint64(ptr)+rs, s.mem.Size())
+		s.violate("bounds", "block-outside-linear-memory", "Allocate(%d) returned %#x: block of %d bytes ends at %#x beyond memory size %#x", size, ptr, rs, uint64(ptr)+rs, s.mem.Size())
 	}
 	if o := m.overlapping(ptr, rs); o != nil {
-		k.Violate(prop, "overlap", "allocation-overlaps-live-allocation", "Allocate(%d) returned %#x (block %d bytes) overlapping live allocation #%d at %#x (requested %d, block %d bytes)",
+		s.violate("overlap", "allocation-overlaps-live-allocation", "Allocate(%d) returned %#x (block %d bytes) overlapping live allocation #%d at %#x (requested %d, block %d bytes)",
 			size, ptr, rs, o.id, o.ptr, o.size, o.rsize)
 	}
 	b := &blk{id: m.nextID, ptr: ptr, size: size, rsize: rs, shadow: map[uint32]byte{}}
@@ -552,7 +561,7 @@ func (s *sim) free(ptr uint32) {
 		k.Event("free-err:"+kind, "#%d Deallocate(%#x) [%s] -> error", s.op, ptr, kind)
 	}
 	if m.poisoned && err == nil {
-		k.Violate(prop, "poisoned", "deallocate-succeeded-after-poisoning", "Deallocate(%#x) [%s] succeeded although an invalid free had been rejected before (allocator must be poisoned)", ptr, kind)
+		s.violate("poisoned", "deallocate-succeeded-after-poisoning", "Deallocate(%#x) [%s] succeeded although an invalid free had been rejected before (allocator must be poisoned)", ptr, kind)
 	}
 	if b != nil {
 		if err == nil {
@@ -575,7 +584,7 @@ func (s *sim) free(ptr uint32) {
 				detail = fmt.Sprintf(" (8 bytes in front of it after the call: % x)", h)
 			}
 		}
-		k.Violate(prop, "invalid-free", "invalid-free-accepted/"+kind, "Deallocate(%#x) succeeded but the pointer is not a live allocation [%s]%s", ptr, kind, detail)
+		s.violate("invalid-free", "invalid-free-accepted/"+kind, "Deallocate(%#x) succeeded but the pointer is not a live allocation [%s]%s", ptr, kind, detail)
 	}
 	if kind == "double-free" {
 		k.Fault("double-free")
@@ -667,7 +676,7 @@ func (s *sim) write() {
 	put := func(off uint32, data []byte) {
 		if !s.mem.UserWrite(b.ptr+off, data) {
 			// cannot happen for a block that passed check (c); reported as a violation of (c) rather than harness trouble
-			k.Violate(prop, "bounds", "store-into-live-allocation-out-of-memory", "store of %d bytes at %#x+%d of live allocation #%d fails: outside linear memory", len(data), b.ptr, off, b.id)
+			s.violate("bounds", "store-into-live-allocation-out-of-memory", "store of %d bytes at %#x+%d of live allocation #%d fails: outside linear memory", len(data), b.ptr, off, b.id)
 		}
 		for i, x := range data {
 			b.shadow[off+uint32(i)] = x
@@ -720,7 +729,7 @@ func (s *sim) checkJournal() {
 			}
 			off := uint32(a - uint64(b.ptr))
 			if want, ok := b.shadow[off]; ok && want != w.New[i] {
-				s.k.Violate(prop, "data", "stored-byte-changed-by-"+opName, "%s wrote %#02x over byte %d (value %#02x) stored by the program in live allocation #%d at %#x (size %d)",
+				s.violate("data", "stored-byte-changed-by-"+opName, "%s wrote %#02x over byte %d (value %#02x) stored by the program in live allocation #%d at %#x (size %d)",
 					opName, w.New[i], off, want, b.id, b.ptr, b.size)
 			}
 		}
@@ -742,7 +751,7 @@ func (s *sim) verifyAll(why string) {
 				if ok {
 					g = int(got[0])
 				}
-				s.k.Violate(prop, "data", "stored-byte-changed", "byte %d of live allocation #%d at %#x (size %d) reads %#x, the program stored %#02x", o, b.id, b.ptr, b.size, g, b.shadow[o])
+				s.violate("data", "stored-byte-changed", "byte %d of live allocation #%d at %#x (size %d) reads %#x, the program stored %#02x", o, b.id, b.ptr, b.size, g, b.shadow[o])
 			}
 			n++
 		}
@@ -754,7 +763,7 @@ func (s *sim) verifyAll(why string) {
 func (s *sim) afterOp() {
 	k := s.k
 	if s.mem.Size() > fourGiB {
-		k.Violate(prop, "memory-size", "memory-grown-past-4GiB", "linear memory is %d pages = %d bytes, above 4 GiB", s.mem.Pages(), s.mem.Size())
+		s.violate("memory-size", "memory-grown-past-4GiB", "linear memory is %d pages = %d bytes, above 4 GiB", s.mem.Pages(), s.mem.Size())
 	}
 	s.checkJournal()
 	for _, g := range s.mem.Grows {
